@@ -98,7 +98,6 @@ for _dt, (_a, _nd, _fill, _junk) in RASTERS.items():
     assert _a.dtype.name == _dt and _a.shape == SRC_SHAPE
     if _dt == "bool":
         assert _a.any() and not _a.all()
-        # every row and column, read in either direction, is distinguishable from its neighbours
     else:
         assert len(set(_a.ravel().tolist())) == _N and _nd not in set(_a.ravel().tolist())
 
@@ -278,6 +277,8 @@ def run_case(case):
         return r
 
     # ---- clause 2: read_shrink > 1 -> roi_src == roi_dst scaled by read_shrink ---------------------
+    if reason is not None:
+        return r  # the whole-pixel overview map is only defined for eligible pairs; already reported
     (dy0, dy1), (dx0, dx1) = _sl(rr.roi_dst)
     (sy0, sy1), (sx0, sx1) = _sl(rr.roi_src)
     dst_empty = dy1 <= dy0 or dx1 <= dx0
@@ -398,7 +399,7 @@ def space(tier):
     ]
     # 5. every dtype
     sp["paste-dtypes"] = [
-        P(grid=("D-utm10", "D-southup") if not th else GRIDS, dshape=DSHAPES,
+        P(grid=("D-utm10", "D-southup") + (("R-deg0.1",) if th else ()), dshape=DSHAPES,
           scales=_same(1, ("0",)) if not th else _same(1, ("0", "+i")),
           shift=itertools.product(range(-8, 9, 2) if not th else range(-8, 9), (-2, 0, 3)),
           res=((("t", 0.0), ("t", 0.0)), (("t", 0.9), ("t", -0.9)), (("t", -0.9), ("t", 0.9))), dtype=DTYPES),
